@@ -1,4 +1,6 @@
 import MaltModel.Conv.NoNative
+import MaltModel.Conv.CallTrees
+import MaltModel.Proofs.C04Passes
 namespace Malt.C04
 open Malt.Py Malt.Conv Malt.Conv.NoNative
 
@@ -166,5 +168,235 @@ theorem noNative_sound (cfg : Cfg) (g : List Stmt) (h : noNative cfg g = true) :
 theorem noNativeE_sound (cfg : Cfg) (e : Expr) (h : noNativeE cfg e = true) : OkE cfg [] false .normal e := by
   unfold noNativeE at h
   exact soundE cfg [] false e _ (List.isEmpty_iff.mp h)
+
+/-! ## Theorems about the MODELS of the expression passes
+
+"Each converter visits children before/after rewriting so nested occurrences are reached" is what the
+structural inductions below prove: they go through `mapE`/`mapB` (the generic `NodeTransformer` traversal)
+once (`Proofs/C04Traverse.lean`) and need, per converter, only that a `post` hook (a `visit_X` that calls
+`generic_visit` first) turns a node with routed children into a routed node.  A `pre` hook (no
+`generic_visit`) gets nothing about its children from the induction — that is exactly where
+`visit_IfExp` fails. -/
+
+private theorem orf {a b : Bool} : (a || b) = false ↔ a = false ∧ b = false := by
+  cases a <;> cases b <;> simp
+
+private theorem overload_none_cmp (eqOn : Bool) (op : String) (l r : Expr)
+    (h : Logical.overloadOf eqOn op = none) : nativeLogical eqOn (.compare 0 l [op] [r]) = false := by
+  unfold Logical.overloadOf at h
+  simp only [nativeLogical, isBoolOp, isNot, isEqCompare, isEqOp, List.any_cons, List.any_nil, Bool.or_false, Bool.false_or]
+  repeat (split at h; simp at h)
+  rename_i h1 h2 h3 h4 h5
+  cases eqOn <;> simp_all
+
+private theorem overload_none_un (eqOn : Bool) (i : Nat) (op : String) (e : Expr)
+    (h : Logical.overloadOf eqOn op = none) : nativeLogical eqOn (.unary i op e) = false := by
+  unfold Logical.overloadOf at h
+  simp only [nativeLogical, isBoolOp, isNot, isEqCompare, Bool.or_false, Bool.false_or]
+  repeat (split at h; simp at h)
+  rename_i h1 h2 h3 h4 h5
+  simp_all
+
+private theorem logicalHooksFree (eqOn : Bool) :
+    HooksFree (Logical.hooks eqOn) (nativeLogical eqOn) (fun _ => false) where
+  pre := by intro e r h; simp [Logical.hooks] at h
+  post := by
+    intro e _ _ hk
+    show anyE _ (Logical.post eqOn (kidsE (Logical.hooks eqOn) e)) = false
+    generalize kidsE (Logical.hooks eqOn) e = e' at hk
+    cases hr : rewrittenByLogical e' with
+    | true =>
+      exact logical_post_rewrites_free (kindPred_nativeLogical eqOn) eqOn (overload_none_cmp eqOn) (overload_none_un eqOn) e' hk hr
+    | false =>
+      rw [logical_post_other eqOn e' hr]
+      have : nativeLogical eqOn e' = false := by
+        cases e' <;> simp [rewrittenByLogical, nativeLogical, isBoolOp, isNot, isEqCompare] at *
+      simp [anyE, this, hk]
+
+/-- **C04 for `and`/`or`/`not` (and `==`/`!=` under EQUALITY_OPERATORS).**  For EVERY block of statements
+(every syntactic context: loop/branch/try/with bodies, nested defs and classes, lambda bodies,
+comprehension elements and clauses, with-items, decorators, defaults, f-strings, subscripts, starred
+arguments, operands of other operators, …) the output of the logical-expression converter contains no
+native boolean operator, no native `not` and — when the feature is on — no native `==`/`!=`.  There is
+no exception. -/
+theorem C04_logical_routed (eqOn : Bool) (b : List Stmt) :
+    anyB (nativeLogical eqOn) (Logical.visitB eqOn b) = false :=
+  mapB_free _ _ _ _ (logicalHooksFree eqOn) (SHooksFree.default _ _ _) b (anyB_false b)
+
+theorem C04_logical_routed_expr (eqOn : Bool) (e : Expr) :
+    anyE (nativeLogical eqOn) (Logical.visitE eqOn e) = false :=
+  mapE_free _ _ _ (logicalHooksFree eqOn) e (anyE_false e)
+
+example : Logical.visitE false (.boolop 1 true [.name 2 "a" .load, .unary 3 "Not" (.name 4 "b" .load), .name 5 "c" .load])
+    = .call 0 (ag "and_") [thunk (.name 2 "a" .load),
+        thunk (.call 0 (ag "and_") [thunk (.call 0 (ag "not_") [.name 4 "b" .load] []), thunk (.name 5 "c" .load)] [])] [] := by
+  rfl
+
+/-! ### conditional expressions -/
+private theorem ifexp_pre_none_not_ifexp (r : Nat → String) (e : Expr) (h : (IfExp.hooks r).pre e = none) :
+    isIfExp (kidsE (IfExp.hooks r) e) = false := by
+  cases e <;> simp [IfExp.hooks, IfExp.pre, kidsE, isIfExp] at *
+
+private theorem ifexpHooksFree (r : Nat → String) :
+    HooksFree (IfExp.hooks r) isIfExp nestedIfExpHere where
+  pre := by
+    intro e res h hb
+    cases e <;> simp [IfExp.hooks, IfExp.pre] at h
+    rename_i i t b e1
+    subst h
+    have hb' : nestedIfExpHere (.ifexp i t b e1) = false := by
+      simp only [anyE, orf] at hb; exact hb.1
+    simp only [nestedIfExpHere, orf] at hb'
+    exact rewrite_free kindPred_isIfExp r i t b e1 hb'.1.1 hb'.1.2 hb'.2
+  post := by
+    intro e hpre _ hk
+    have : isIfExp (kidsE (IfExp.hooks r) e) = false := ifexp_pre_none_not_ifexp r e hpre
+    show anyE isIfExp (kidsE (IfExp.hooks r) e) = false
+    simp only [anyE, this, hk]; rfl
+
+/- Full statement (FALSE for the pinned `visit_IfExp`, which never calls `generic_visit`):
+
+     theorem C04_ifexp_routed (r) (b : List Stmt) : anyB isIfExp (IfExp.visitB r b) = false
+
+   Counterexample below (`C04_ifexp_routed_counterexample`): `1 if a else (2 if b else 3)`.
+   Known finding C04-ifexp-nested, class `ifexp_nested_in_ifexp_branch` = ¬ `noNestedIfExpB`.
+   Proposed fix: `node = self.generic_visit(node)` as first line of `visit_IfExp`
+   (then `C04_ifexp_routed_fixed` below is the unconditional statement). -/
+
+/-- **C04 for conditional expressions, partial**: if no conditional expression contains another one
+(anywhere inside: test, branches, or deeper), the output has no native conditional expression. -/
+theorem C04_ifexp_routed_partial (r : Nat → String) (b : List Stmt) (h : noNestedIfExpB b = true) :
+    anyB isIfExp (IfExp.visitB r b) = false :=
+  mapB_free _ _ _ _ (ifexpHooksFree r) (SHooksFree.default _ _ _) b (by simpa [noNestedIfExpB] using h)
+
+theorem C04_ifexp_routed_partial_expr (r : Nat → String) (e : Expr) (h : noNestedIfExpE e = true) :
+    anyE isIfExp (IfExp.visitE r e) = false :=
+  mapE_free _ _ _ (ifexpHooksFree r) e (by simpa [noNestedIfExpE] using h)
+
+/-- `1 if a else (2 if b else 3)` -/
+def nestedIfExpWitness : Expr :=
+  .ifexp 1 (.name 2 "a" .load) (.const 3 "int" "1") (.ifexp 4 (.name 5 "b" .load) (.const 6 "int" "2") (.const 7 "int" "3"))
+
+/-- The full statement fails on the pinned code: the inner conditional stays native. -/
+theorem C04_ifexp_routed_counterexample :
+    ¬ (∀ (r : Nat → String) (e : Expr), anyE isIfExp (IfExp.visitE r e) = false) := by
+  intro h
+  have := h (fun _ => "''") nestedIfExpWitness
+  revert this
+  decide
+
+example : noNestedIfExpE nestedIfExpWitness = false := by decide
+-- the hypothesis is satisfiable by a non-trivial instance: two conditionals side by side
+example : noNestedIfExpE (.binop 1 "Add" (.ifexp 2 (.name 3 "a" .load) (.const 4 "int" "1") (.const 5 "int" "2"))
+    (.ifexp 6 (.name 7 "b" .load) (.const 8 "int" "1") (.const 9 "int" "2"))) = true := by decide
+
+private theorem ifexpFixedHooksFree (r : Nat → String) :
+    HooksFree (IfExp.hooksFixed r) isIfExp (fun _ => false) where
+  pre := by intro e res h; simp [IfExp.hooksFixed] at h
+  post := by
+    intro e _ _ hk
+    show anyE _ (IfExp.postFixed r (kidsE (IfExp.hooksFixed r) e)) = false
+    generalize kidsE (IfExp.hooksFixed r) e = e' at hk
+    cases e'
+    case ifexp i t b e1 =>
+      simp only [IfExp.postFixed]
+      simp only [anyKids, orf] at hk
+      have h1 : anyE isIfExp t = false := by simp only [anyE, hk.1.1.1, hk.1.1.2]; rfl
+      have h2 : anyE isIfExp b = false := by simp only [anyE, hk.1.2.1, hk.1.2.2]; rfl
+      have h3 : anyE isIfExp e1 = false := by simp only [anyE, hk.2.1, hk.2.2]; rfl
+      exact rewrite_free kindPred_isIfExp r i t b e1 h1 h2 h3
+    all_goals (simp [IfExp.postFixed, anyE, isIfExp, hk])
+
+/-- With the proposed one-line fix (`generic_visit` first) the statement holds without hypothesis. -/
+theorem C04_ifexp_routed_fixed (r : Nat → String) (e : Expr) : anyE isIfExp (IfExp.visitEFixed r e) = false :=
+  mapE_free _ _ _ (ifexpFixedHooksFree r) e (anyE_false e)
+
+/-! ### the later passes keep what the earlier ones established -/
+private theorem logicalKeepsIfExpFree (eqOn : Bool) : HooksFree (Logical.hooks eqOn) isIfExp isIfExp where
+  pre := by intro e r h; simp [Logical.hooks] at h
+  post := by
+    intro e _ hb hk
+    show anyE _ (Logical.post eqOn (kidsE (Logical.hooks eqOn) e)) = false
+    have hpe : isIfExp (kidsE (Logical.hooks eqOn) e) = false := by
+      rw [kindPred_isIfExp.kids]; simp only [anyE, orf] at hb; exact hb.1
+    generalize kidsE (Logical.hooks eqOn) e = e' at hk hpe
+    cases hr : rewrittenByLogical e' with
+    | true => exact logical_post_rewrites_free kindPred_isIfExp eqOn (by intros; rfl) (by intros; rfl) e' hk hr
+    | false =>
+      rw [logical_post_other eqOn e' hr]
+      simp [anyE, hpe, hk]
+
+theorem logical_keeps_ifexp_free (eqOn : Bool) (b : List Stmt) (h : anyB isIfExp b = false) :
+    anyB isIfExp (Logical.visitB eqOn b) = false :=
+  mapB_free _ _ _ _ (logicalKeepsIfExpFree eqOn) (SHooksFree.default _ _ _) b h
+
+private theorem variablesHooksFree {p : Expr → Bool} (K : KindPred p) (o : Nat → Bool) :
+    HooksFree (Variables.hooks o) p p where
+  pre := by intro e r h; simp [Variables.hooks] at h
+  post := by
+    intro e _ hb hk
+    show anyE _ (Variables.postE o (kidsE (Variables.hooks o) e)) = false
+    have hpe : p (kidsE (Variables.hooks o) e) = false := by
+      rw [K.kids]; simp only [anyE, orf] at hb; exact hb.1
+    generalize kidsE (Variables.hooks o) e = e' at hk hpe
+    unfold Variables.postE
+    split
+    · split
+      · simp only [Variables.ld]; rw [anyE_call1 K]; simp [anyE, anyKids, K.name]
+      · simp [anyE, anyKids, K.name]
+    · simp [anyE, hpe, hk]
+
+private theorem undefAssigns_free {p : Expr → Bool} (K : KindPred p) :
+    ∀ (ts : List Expr), anyB p (Variables.undefAssigns ts) = false
+  | [] => by simp [Variables.undefAssigns, anyB]
+  | t :: ts => by
+      have := undefAssigns_free K ts
+      cases t <;> simp [Variables.undefAssigns, Variables.undefAssign, anyB, anyB_append, this]
+      have h0 := anyE_ag K "Undefined"
+      simp only [anyE, orf] at h0
+      simp [anyS, anyEs, anyE, anyKids, anyKidsL, K.name, K.call, K.const, h0.1, h0.2]
+
+private theorem variablesSHooksFree {p : Expr → Bool} (K : KindPred p) (o : Nat → Bool) :
+    SHooksFree (Variables.hooks o) Variables.shooks p p where
+  pre := by
+    intro s r h hb
+    cases s <;> simp [Variables.shooks, Variables.preS] at h
+    rename_i i t op v
+    cases t <;> simp at h
+    rename_i j nme c
+    subst h
+    have h1 : anyE p (Variables.ld (.name j nme .load)) = false := by
+      simp only [Variables.ld]; rw [anyE_call1 K]; simp [anyE, anyKids, K.name]
+    simp [anyB, anyS, anyEs, anyKidsL, anyKids, K.name, h1]
+    simpa [anyS] using hb
+  post := by
+    intro s _ _ hk
+    show anyB p (Variables.postS (kidsS (Variables.hooks o) Variables.shooks s)) = false
+    generalize kidsS (Variables.hooks o) Variables.shooks s = s' at hk
+    cases s' <;> simp only [Variables.postS] <;> try (simp [anyB, hk])
+    rename_i i ts
+    simp only [anyS, anyEs] at hk
+    split
+    · simp [anyB, anyS, anyEs, hk]
+    · rw [anyB_append, undefAssigns_free K]
+      split
+      · simp [anyB]
+      · simp [anyB, anyS, anyEs, anyKidsL_filter p _ ts hk]
+
+/-- the variables converter (it only inserts `ag__.ld(·)` / `ag__.Undefined(·)`) keeps any kind-based
+freeness -/
+theorem variables_keeps_free {p : Expr → Bool} (K : KindPred p) (o : Nat → Bool) (b : List Stmt)
+    (h : anyB p b = false) : anyB p (Variables.visitB o b) = false :=
+  mapB_free _ _ _ _ (variablesHooksFree K o) (variablesSHooksFree K o) b h
+
+/-- **Composition for the expression passes** (`conditional_expressions`, `logical_expressions`,
+`variables`, in pipeline order): under `noNestedIfExp`, the result has no native `and`/`or`/`not`
+(`==`/`!=`) and no native conditional expression, in any syntactic context. -/
+theorem C04_expr_passes_compose_partial (eqOn : Bool) (r : Nat → String) (o : Nat → Bool) (g : List Stmt)
+    (h : noNestedIfExpB g = true) :
+    anyB (nativeLogical eqOn) (Variables.visitB o (Logical.visitB eqOn (IfExp.visitB r g))) = false ∧
+    anyB isIfExp (Variables.visitB o (Logical.visitB eqOn (IfExp.visitB r g))) = false :=
+  ⟨variables_keeps_free (kindPred_nativeLogical eqOn) o _ (C04_logical_routed eqOn _),
+   variables_keeps_free kindPred_isIfExp o _ (logical_keeps_ifexp_free eqOn _ (C04_ifexp_routed_partial r g h))⟩
 
 end Malt.C04
